@@ -61,6 +61,15 @@ CLAIMED['C03'] = ('E1 stepdiff + metamorphic round trip', 'property-based differ
                   'plus a reference-free round trip (store-multiple; clobber; matching load-multiple restores every listed register and the base) for nine encoding pairs.',
                   E1_NOTE, 'DESIGN.md section 5 C03')
 
+CLAIMED['C09'] = ('E1 stepdiff', 'property-based differential testing against an independent reference interpreter (Hypothesis-driven generation)',
+                  E1_TEXT + 'covers MUL/MLA/MLS, long / halfword / dual / most-significant-word multiplies, SDIV/UDIV (incl. 7-R divide-by-zero trapping), QADD.., '
+                  'SSAT/USAT(16), the 36 parallel add/sub instructions, SEL, USAD8/USADA8, extend(+add), BFC/BFI/SBFX/UBFX, PKH, REV*, RBIT, CLZ (ARM and Thumb) with '
+                  'lane-boundary, INT_MIN/-1, divisor-0 and product-multiple-of-2^32 operands and prior Q/GE.', E1_NOTE, 'DESIGN.md section 5 C09')
+CLAIMED['C12'] = ('E1 stepdiff', 'property-based differential testing against an independent reference interpreter (Hypothesis-driven generation)',
+                  E1_TEXT + 'covers MSR/MRS/CPS/SETEND with values that attempt forbidden changes, SUBS PC,LR / ERET / RFE / LDM^ exception returns, SVC/SMC/BKPT/UDF, '
+                  'hints and events, barriers, preloads and coprocessor instructions under random CPACR/NSACR/HCPTR, on configurations with and without the Security '
+                  'and Virtualization Extensions, stock and with the mock hooks implemented.', E1_NOTE, 'DESIGN.md section 5 C12')
+
 NOT_YET = {}
 
 
@@ -97,7 +106,7 @@ def main():
             'add_only': True,
         },
         'engines': [
-            {'name': 'E1 stepdiff', 'path': 'vf/props', 'serves_properties': ['C01', 'C02', 'C03', 'C04'], 'kind_free_text': 'differential stepping of emulate_cycle against the reference model vf/ref'},
+            {'name': 'E1 stepdiff', 'path': 'vf/props', 'serves_properties': ['C01', 'C02', 'C03', 'C04', 'C09', 'C12'], 'kind_free_text': 'differential stepping of emulate_cycle against the reference model vf/ref'},
             {'name': 'E2 decodediff', 'path': 'vf/props/decode_check.py', 'serves_properties': ['C06', 'C07'], 'kind_free_text': 'joint path enumeration of decoders and reference encoding tables'},
             {'name': 'E3 unitdiff', 'path': 'vf/props/c17.py', 'serves_properties': ['C17'], 'kind_free_text': 'direct calls of helpers against independent re-implementations'},
             {'name': 'E4 totality', 'path': 'vf/props/c18.py', 'serves_properties': ['C18'], 'kind_free_text': 'validity-predicate fuzzing of emulate_cycle'},
